@@ -693,4 +693,44 @@ def r7_14(ctx):
     borrow(ctx, r13_6, "R13.6", "R7.14", " [the folding of a cell depends on the position in the line: caches of the cell helpers must cover every argument]")
 
 
-RULES = [r7_1, r7_2, r7_3, r7_4, r7_5, r7_6, r7_7, r7_8, r7_9, r7_10, r7_11, r7_12, r7_13, r7_14, r7_15, r7_16, r7_17]
+def r7_18(ctx):
+    from .c05 import r5_8
+    from .common import borrow
+    borrow(ctx, r5_8, "R5.8", "R7.18", " [every character of a folded cell stays in its column: cell lines are justified by Lines.justify and cut by truncate / set_length in cells - padding computed from a character count over-pads a line of double-width characters, and the final truncate drops its last characters]")
+
+
+def r7_19(ctx):
+    ctx.rule("R7.19", "every width vector is put to the expand test: in Table._calculate_column_widths each definition or element store of `widths` outside the final padding block reaches a `return` only through the test that pads the columns out (`table_width < max_width and self.expand`, or the min_width clause) - the collapse stage re-measures the columns and a column can come back narrower than it was reduced to, so a path that skips the padding after a collapse leaves an expand=True table narrower than the width it was asked to fill")
+    from ..yieldpaths import canon_test
+    f = ctx.repo.fn("table:Table._calculate_column_widths")
+    m = f.module
+    g = cfgmod.build(f.node)
+    mw = f.params[2] if len(f.params) > 2 else "max_width"
+    tests = set()
+    for nd in g.nodes:
+        if nd.id in g.reachable and nd.kind == "test" and nd.expr is not None:
+            txt = norm(nd.expr).replace(" ", "")
+            if "self.expand" in txt and (f"table_width<{mw}" in txt or f"sum(widths)<{mw}" in txt or f"{mw}>table_width" in txt):
+                tests.add(nd.id)
+    if not tests:
+        raise AnalysisError("Table._calculate_column_widths: no test `table_width < max_width and self.expand` found; the padding stage is written in a form this rule does not read")
+    dom = g.dominators()
+    rets = {nd.id for nd in g.nodes if nd.id in g.reachable and nd.kind == "stmt" and isinstance(nd.stmt, ast.Return) and nd.stmt.value is not None and not (isinstance(nd.stmt.value, ast.List) and not nd.stmt.value.elts)}
+    n = 0
+    for nd in g.nodes:
+        if nd.id not in g.reachable or nd.kind != "stmt" or not isinstance(nd.stmt, (ast.Assign, ast.AugAssign, ast.AnnAssign)):
+            continue
+        tgts = nd.stmt.targets if isinstance(nd.stmt, ast.Assign) else [nd.stmt.target]
+        if not any(isinstance((t.value if isinstance(t, ast.Subscript) else t), ast.Name) and (t.value if isinstance(t, ast.Subscript) else t).id == "widths" for t in tgts):
+            continue
+        if dom.get(nd.id, set()) & tests:
+            continue  # the padding block itself
+        n += 1
+        w = g.must_pass(nd.id, tests, rets)
+        ctx.check(w is None, f.fq, short(nd.stmt), f"{m.relpath}:{nd.lineno}", "these widths reach a return only through the expand / min_width test",
+                  f"after `{short(nd.stmt)}` a path returns the widths without the test that pads an expanding table out to {mw}: when the collapse stage leaves the columns narrower than the available width (ratio columns 10:1:1 at width 15-19) the table stays short of the width it was asked to fill",
+                  g.describe_path(w) if w else None)
+    ctx.floor(n, 2, "definitions of widths before the padding test")
+
+
+RULES = [r7_1, r7_2, r7_3, r7_4, r7_5, r7_6, r7_7, r7_8, r7_9, r7_10, r7_11, r7_12, r7_13, r7_14, r7_15, r7_16, r7_17, r7_18, r7_19]
